@@ -428,6 +428,17 @@ def run_peer(case: dict[str, Any]) -> Outcome:
     return out
 
 
+def run_external_retry(case: dict[str, Any]) -> Outcome:
+    """Logs carried inside an externalized payload whose first download is cut short and then retried must still be
+    delivered exactly once (or, if resolution fails, not at all).  Reuses C30's crafted-payload driver."""
+    from checks import c30
+
+    out = c30.run_resolver(case)
+    out.violations = [(f"external_retry/{k}", w) for k, w in out.violations if "/transient/" in k]
+    out.nontrivial = any(i.get("k") == "log" for i in case["items"])
+    return out
+
+
 def main(chk: Check) -> None:
     prog = st.fixed_dictionaries(
         {"spec": programs.program_specs(dense_logs=True, early_exit=True, max_methods=2, max_calls=3), "cfg": st.integers(0, len(CFGS) - 1)}
@@ -435,3 +446,9 @@ def main(chk: Check) -> None:
     chk.explore("programs", prog, run_program, quick=800, thorough=8000)
     chk.explore("ordering", prog, run_ordering, quick=400, thorough=4000)
     chk.explore("peer", peer_cases, run_peer, quick=1200, thorough=12000)
+    from checks import c30
+
+    retry_cases = c30.resolver_cases.map(
+        lambda c: {**c, "transient": c["transient"] if c["transient"] is not None else 0.9, "schema": "same", "flip": None}
+    )
+    chk.explore("external_retry", retry_cases, run_external_retry, quick=400, thorough=6000)
